@@ -1,5 +1,6 @@
 """C06 - integers crossing the ABI boundary keep their value or the operation aborts."""
 from .. import facts
+from . import ops
 from ..common import is_check_fn, stmt_always_aborts, site
 from ..interval import Evaluator, Inconclusive, trange, merge, intersect, complement, size
 from ..engine import Engine, Inconclusive as EngInconclusive, fmt
@@ -138,7 +139,7 @@ ROUTE_FUNCS = {"rlbox::tainted_volatile::operator=", "rlbox::tainted_volatile::g
 def check_route(rep, dbs):
     """R-C06-route: integer values cross between guest-typed and host-typed storage only inside convert_type_fundamental"""
     from .. import q
-    from ..engine import C, subterms
+    from ..engine import C, subterms, Ev
     from .c09 import root_of
     n = 0
     for db in dbs:
@@ -171,6 +172,19 @@ def check_route(rep, dbs):
             for p in ps:
                 converted = set()
                 for e in p.events:
+                    if e.kind == "CALL" and (q.short(e.a) == "impl_invoke_with_func_ptr" or e.a == "<indirect>"):
+                        # arguments handed to the sandboxed function / to the application callback
+                        for a in e.b:
+                            vals = [a]
+                            if isinstance(a, tuple) and a[:1] in (("tmp",), ("var",)):
+                                vals += [p.state.mem.get(a), p.state.mem.get(("fld", a, "data")), p.state.mem.get(("fld", p.state.mem.get(("copyof", a)), "data"))]
+                            if any(x is not None and ops.unchecked_conversion(p, x) for x in vals):
+                                bad = Ev("STORE", ("var", 0, "argument of " + (q.short(e.a) if e.a != "<indirect>" else "the callback")), next(x for x in vals if x is not None and ops.unchecked_conversion(p, x)), loc=e.loc)
+                                break
+                        if bad:
+                            break
+                        cnt += 1
+                        continue
                     if e.kind != "STORE" or (e.extra or {}).get("rec"):
                         continue
                     inside = any(nm == "rlbox::detail::convert_type_fundamental" for nm, _l in e.stack)
@@ -179,6 +193,9 @@ def check_route(rep, dbs):
                     if inside:
                         for x in srcs:
                             converted.add(x)
+                        if in_sandbox(e.a) and ops.unchecked_conversion(p, v):
+                            bad = e
+                            break
                         continue
                     ty = (e.extra or {}).get("t") or {}
                     if ty.get("k") not in ("int", "bool"):
@@ -190,6 +207,11 @@ def check_route(rep, dbs):
                                                            (x[0] == "fld" and x[2] in ("callback_trampoline", "idx"))) for x in subterms(v)):
                         continue
                     dst_sbx = in_sandbox(e.a)
+                    # every narrowing / sign-changing conversion contained in a value that reaches sandbox memory must have been
+                    # introduced inside the checked conversion routine (not by an unchecked C++ conversion on the way)
+                    if dst_sbx and ops.unchecked_conversion(p, v):
+                        bad = e
+                        break
                     src_sbx = [x for x in srcs if in_sandbox(x[1] if x[0] == "rd" else x[2])]
                     src_app = [x for x in srcs if not in_sandbox(x[1] if x[0] == "rd" else x[2])]
                     crossing = (dst_sbx and any(x not in converted for x in src_app)) or (not dst_sbx and any(x not in converted for x in src_sbx))
@@ -201,7 +223,7 @@ def check_route(rep, dbs):
                 if bad:
                     break
             if bad:
-                rep.violation("R-C06-route", site(f), "an integer value is moved across the ABI boundary by a direct assignment (%s := %s) instead of through the checked conversion routine" % (fmt(bad.a)[:60], fmt(bad.b)[:80]), bad.loc, inst)
+                rep.violation("R-C06-route", site(f), "an integer value on its way across the ABI boundary is converted by a plain C++ conversion/assignment (%s := %s) outside the checked conversion routine" % (fmt(bad.a)[:60], fmt(bad.b)[:80]), bad.loc, inst)
             elif cnt:
                 n += 1
                 rep.ok("R-C06-route", site(f), "%d integer stores, all inside convert_type_fundamental" % cnt, inst)
